@@ -18,7 +18,7 @@ package autodiff
 
 /* -------------------------------------------------------------------------- */
 
-//import "fmt"
+import "fmt"
 
 /* -------------------------------------------------------------------------- */
 
@@ -68,4 +68,25 @@ func (obj *vectorSparseIndexIterator) Get() int {
 
 func (obj *vectorSparseIndexIterator) Clone() *vectorSparseIndexIterator {
   return &vectorSparseIndexIterator{obj.AvlIterator.Clone()}
+}
+
+/* -------------------------------------------------------------------------- */
+
+// Check length and indices of a sparse vector that was read from a file or
+// a json object before it is constructed
+func checkSparseIndices(indices []int, n int) error {
+  if n < 0 {
+    return fmt.Errorf("invalid sparse vector: negative length")
+  }
+  seen := make(map[int]struct{}, len(indices))
+  for _, k := range indices {
+    if k < 0 || k >= n {
+      return fmt.Errorf("invalid sparse vector: index `%d' out of range", k)
+    }
+    if _, ok := seen[k]; ok {
+      return fmt.Errorf("invalid sparse vector: index `%d' appears multiple times", k)
+    }
+    seen[k] = struct{}{}
+  }
+  return nil
 }
